@@ -36,6 +36,7 @@ func fail(c *hc.Ctx, kind, desc string, replay any) {
 func run(c *hc.Ctx) {
 	corrSolveQuadratic(c)
 	corrEllipseToCenter(c)
+	corrAngles(c)
 	n := c.N
 	for it := 0; it < n; it++ {
 		var d []float64
@@ -65,6 +66,7 @@ func run(c *hc.Ctx) {
 		c.Count("gen:" + tag)
 		checkPath(c, d, tag, it < 3)
 	}
+	sweeps(c)
 	// fixed corpus: the literal shapes of TestPathBounds-like inputs and the minimal witnesses
 	for _, s := range []string{
 		"M0 0C0 1 10 0 0 2", "M0 0C0 0 5 5 1 1", "M0 0Q10 10 20 0", "M0 0Q0 10 10 0", "M0 0C10 10 20 -10 30 0",
@@ -76,6 +78,77 @@ func run(c *hc.Ctx) {
 		}
 		c.Count("gen:corpus")
 		checkPath(c, p.Data(), "corpus", false)
+	}
+}
+
+// sweeps: deterministic lattices (no randomness), so that every per-axis sign pattern of a small cubic
+// and quadratic control polygon and a regular grid of ellipse rotations / radii ratios / arc extents
+// is seen on every run. Quick tier: the Bezier lattices and a coarse arc grid; thorough: the fine grid.
+func sweeps(c *hc.Ctx) {
+	// cubic: all 5^4 = 625 control values {-2..2} on x, paired with a permuted pattern on y
+	for i := 0; i < 625; i++ {
+		j := (i*7 + 3) % 625
+		v := func(k, pos int) float64 {
+			for ; pos > 0; pos-- {
+				k /= 5
+			}
+			return float64(k%5 - 2)
+		}
+		d := []float64{canvas.MoveToCmd, v(i, 0), v(j, 0), canvas.MoveToCmd,
+			canvas.CubeToCmd, v(i, 1), v(j, 1), v(i, 2), v(j, 2), v(i, 3), v(j, 3), canvas.CubeToCmd}
+		c.Count("gen:sweep-cubic-lattice")
+		checkPath(c, d, "sweep-cubic", false)
+	}
+	// quadratic: all 5^3 = 125
+	for i := 0; i < 125; i++ {
+		j := (i*7 + 3) % 125
+		v := func(k, pos int) float64 {
+			for ; pos > 0; pos-- {
+				k /= 5
+			}
+			return float64(k%5 - 2)
+		}
+		d := []float64{canvas.MoveToCmd, v(i, 0), v(j, 0), canvas.MoveToCmd,
+			canvas.QuadToCmd, v(i, 1), v(j, 1), v(i, 2), v(j, 2), canvas.QuadToCmd}
+		c.Count("gen:sweep-quad-lattice")
+		checkPath(c, d, "sweep-quad", false)
+	}
+	// arcs: rotation x ratio x start x extent x direction
+	nphi, nth, next := 6, 6, 5
+	if c.Tier != "quick" {
+		nphi, nth, next = 24, 16, 12
+	}
+	for ip := 0; ip < nphi; ip++ {
+		phi := float64(ip) * math.Pi / float64(nphi)
+		for _, ratio := range []float64{1, 0.5, 0.1, 2} {
+			rx, ry := 8.0, 8.0*ratio
+			sn, cs := math.Sincos(phi)
+			at := func(th float64) (float64, float64) {
+				ex, ey := rx*math.Cos(th), ry*math.Sin(th)
+				return cs*ex - sn*ey, sn*ex + cs*ey
+			}
+			for it := 0; it < nth; it++ {
+				th0 := float64(it) * 2 * math.Pi / float64(nth)
+				for ie := 1; ie <= next; ie++ {
+					ext := float64(ie) * 2 * math.Pi / float64(next+1)
+					if (it+ie+ip)%2 == 1 {
+						ext = -ext
+					}
+					x0, y0 := at(th0)
+					x1, y1 := at(th0 + ext)
+					fl := 0.0
+					if math.Abs(ext) > math.Pi {
+						fl += 1
+					}
+					if ext > 0 {
+						fl += 2
+					}
+					d := []float64{canvas.MoveToCmd, x0, y0, canvas.MoveToCmd, canvas.ArcToCmd, rx, ry, phi, fl, x1, y1, canvas.ArcToCmd}
+					c.Count("gen:sweep-arc-grid")
+					checkPath(c, d, "sweep-arc", false)
+				}
+			}
+		}
 	}
 }
 
@@ -518,18 +591,132 @@ func corrSolveQuadratic(c *hc.Ctx) {
 	}
 }
 
+// angleNorm / angleBetween use only + - math.Mod and comparisons: bit-exact correspondence, including
+// the boundary classes (theta on an end of the range, Epsilon next to an end, whole turns added,
+// swapped ends, ranges of almost a full turn, tiny ranges).
+func corrAngles(c *hc.Ctx) {
+	turn := 2 * math.Pi
+	for i := 0; i < c.N; i++ {
+		lo := c.Range(-7, 7)
+		if c.Chance(0.2) {
+			lo = float64(c.Intn(17)-8) * math.Pi / 4
+		}
+		ext := c.Range(0, turn)
+		switch c.Intn(6) {
+		case 0:
+			ext = []float64{1e-12, 1e-10, 2e-10, 1e-9, 1e-6, 1e-3}[c.Intn(6)]
+		case 1:
+			ext = turn - []float64{0, 1e-12, 1e-10, 2e-10, 3e-10, 1e-9, 1e-3}[c.Intn(7)]
+		case 2:
+			ext = float64(c.Intn(9)) * math.Pi / 4
+		}
+		up := lo + ext
+		var th float64
+		cls := c.Intn(8)
+		switch cls {
+		case 0:
+			th = lo
+		case 1:
+			th = up
+		case 2:
+			th = lo + []float64{-1e-10, 1e-10, -2e-10, -0.5e-10, -1.5e-10, 1e-15, -1e-15}[c.Intn(7)]
+		case 3:
+			th = up + []float64{-1e-10, 1e-10, 2e-10, 0.5e-10, 1.5e-10, 1e-15, -1e-15}[c.Intn(7)]
+		case 4:
+			th = lo + ext*c.Float() + float64(c.Intn(7)-3)*turn
+		case 5:
+			th = c.Range(-20, 20)
+		case 6:
+			th = (lo+up)/2 + math.Pi // opposite side
+		default:
+			th = lo + ext*c.Float()
+		}
+		if c.Chance(0.3) {
+			lo, up = up, lo
+			c.Count("angleBetween:ends swapped")
+		}
+		c.Count(fmt.Sprintf("angleBetween:class%d", cls))
+		r := canvas.VerifC08AngleBetween(th, lo, up)
+		c.Count("angleBetween:result " + hc.B(r))
+		c.Case("AB "+hc.Hs(th, lo, up), "=", hc.B(r))
+		an := th
+		if c.Bool() {
+			an = float64(c.Intn(33)-16) * math.Pi / 4 * []float64{1, 1 + 1e-16, 1 - 1e-16, 1e3}[c.Intn(4)]
+		}
+		c.Case("AN "+hc.H(an), "=", hc.H(canvas.VerifC08AngleNorm(an)))
+	}
+}
+
 func corrEllipseToCenter(c *hc.Ctx) {
 	for i := 0; i < c.N; i++ {
-		d := genEllipseArc(c, c.Chance(0.3))
-		x1, y1 := d[1], d[2]
-		rx, ry, phi, fl, x2, y2 := d[5], d[6], d[7], d[8], d[9], d[10]
+		var x1, y1, rx, ry, phi, fl, x2, y2 float64
+		if c.Chance(0.3) {
+			// the branch conditions of ellipseToCenter on exactly representable inputs: coincident end
+			// points, the half-ellipse shortcut (|x2-x1| = 2rx, y1 = y2, phi = 0) and its near misses
+			// (chord = rx, chord off by a few Epsilon, y or phi off by a few Epsilon), radii too small
+			// (scaled), chord = diameter of a rotated ellipse (sq clamped to 0)
+			rx, ry = float64(1+c.Intn(8)), float64(1+c.Intn(8))
+			x1, y1 = float64(c.Intn(21)-10), float64(c.Intn(21)-10)
+			fl = float64(c.Intn(4))
+			d := []float64{0, 0, 1e-11, -1e-11, 0.9e-10, 1.1e-10, -1.1e-10, 3e-10, 1e-7}
+			switch c.Intn(7) {
+			case 0:
+				x2, y2 = x1+d[c.Intn(len(d))], y1+d[c.Intn(len(d))]
+				c.Count("ellipseToCenter-class:coincident")
+			case 1:
+				x2, y2 = x1+[]float64{2, -2}[c.Intn(2)]*rx+d[c.Intn(len(d))], y1+d[c.Intn(len(d))]
+				phi = d[c.Intn(len(d))]
+				c.Count("ellipseToCenter-class:chord=2rx")
+			case 2:
+				x2, y2 = x1+[]float64{1, -1}[c.Intn(2)]*rx+d[c.Intn(len(d))], y1
+				c.Count("ellipseToCenter-class:chord=rx")
+			case 3:
+				x2, y2 = x1, y1+[]float64{2, -2}[c.Intn(2)]*ry
+				c.Count("ellipseToCenter-class:chord=2ry vertical")
+			case 4:
+				x2, y2 = x1+float64(c.Intn(7)+3)*rx, y1+float64(c.Intn(5))
+				c.Count("ellipseToCenter-class:radii too small")
+			case 5:
+				phi = float64(c.Intn(8)) * math.Pi / 4
+				sn, cs := math.Sincos(phi)
+				x2, y2 = x1+2*rx*cs, y1+2*rx*sn
+				c.Count("ellipseToCenter-class:rotated diameter")
+			default:
+				x2, y2 = x1+float64(c.Intn(5)-2), y1+float64(c.Intn(5)-2)
+				c.Count("ellipseToCenter-class:small integer chord")
+			}
+		} else {
+			d := genEllipseArc(c, c.Chance(0.3))
+			x1, y1 = d[1], d[2]
+			rx, ry, phi, fl, x2, y2 = d[5], d[6], d[7], d[8], d[9], d[10]
+		}
 		large, sweep := fl == 1 || fl == 3, fl == 2 || fl == 3
 		cx, cy, t0, t1 := canvas.VerifC08EllipseToCenter(x1, y1, rx, ry, phi, large, sweep, x2, y2)
+		// which branch (re-derived for the histogram only)
+		eq := func(a, b float64) bool { return math.Abs(a-b) <= 1e-10 }
+		switch {
+		case eq(x1, x2) && eq(y1, y2):
+			c.Count("ellipseToCenter-branch:coincident")
+		case eq(math.Abs(x2-x1), 2*rx) && eq(y1, y2) && eq(phi, 0):
+			c.Count("ellipseToCenter-branch:half-ellipse shortcut")
+		default:
+			sn, cs := math.Sincos(phi)
+			x1p, y1p := cs*(x1-x2)/2+sn*(y1-y2)/2, -sn*(x1-x2)/2+cs*(y1-y2)/2
+			lam := x1p*x1p/rx/rx + y1p*y1p/ry/ry
+			switch {
+			case lam > 1:
+				c.Count("ellipseToCenter-branch:radii scaled")
+			case (1-lam)/lam <= 1e-10:
+				c.Count("ellipseToCenter-branch:sq clamped")
+			default:
+				c.Count("ellipseToCenter-branch:general")
+			}
+		}
 		args := hc.Hs(x1, y1, rx, ry, phi) + " " + hc.B(large) + " " + hc.B(sweep) + " " + hc.Hs(x2, y2)
 		// theta0 = acos(u) and delta = acos(v) amplify a 1-ulp difference of the libm sin/cos (Go's are
 		// pure Go, Lean's are glibc) by 1/sin(angle): compare the angles only where that stays below the
 		// comparison tolerance, otherwise compare the centre only (skip-and-count).
-		if math.Abs(math.Sin(t0)) < 1e-5 || math.Abs(math.Sin(t1-t0)) < 1e-5 {
+		if math.IsNaN(t0) || math.IsNaN(t1) || math.Abs(math.Sin(t0)) < 1e-5 || math.Abs(math.Sin(t1-t0)) < 1e-5 {
 			c.Count("ellipseToCenter:angles ill-conditioned (centre only)")
 			c.Case("ECC "+args, "~", hc.Hs(cx, cy))
 		} else {
@@ -757,23 +944,7 @@ func branchHist(c *hc.Ctx, s hc.Seg) {
 	}
 }
 
-// the defect class of the known finding: FastBounds' CubeTo case takes Min(cp2,end) inside the upper
-// bounds. True iff for some cubic of the path and axis, max(cp2,end) exceeds what the source formula
-// takes into account, i.e. max(cp1, min(cp2,end)).
-func cubicMinMaxClass(segs []hc.Seg, a int, sign float64) bool {
-	for _, s := range segs {
-		if s.Kind != 'C' {
-			continue
-		}
-		p1, p2, p3 := sign*coord(s.P1, a), sign*coord(s.P2, a), sign*coord(s.End, a)
-		if math.Max(p2, p3) > math.Max(p1, math.Min(p2, p3)) {
-			return true
-		}
-	}
-	return false
-}
-
-func mapData(d []float64, f func(x, y float64) (float64, float64), reflect bool) []float64 {
+func mapData(d []float64, f func(x, y float64) (float64, float64), reflect bool, dphi float64) []float64 {
 	out := append([]float64{}, d...)
 	for i := 0; i < len(out); {
 		cmd := out[i]
@@ -791,6 +962,7 @@ func mapData(d []float64, f func(x, y float64) (float64, float64), reflect bool)
 			out[i+5], out[i+6] = f(out[i+5], out[i+6])
 			i += 8
 		case canvas.ArcToCmd:
+			out[i+3] += dphi
 			if reflect {
 				out[i+3] = -out[i+3]
 				// toggle sweep
@@ -835,58 +1007,34 @@ func checkPath(c *hc.Ctx, d []float64, tag string, sample bool) {
 	if sample {
 		c.Sample(fmt.Sprintf("%s: %s  Bounds %s FastBounds %s sampled (%.9g,%.9g)-(%.9g,%.9g)", tag, p.String(), rectStr(bb), rectStr(fb), pi.exact.lo[0], pi.exact.lo[1], pi.exact.hi[0], pi.exact.hi[1]))
 	}
-	replay := map[string]any{"path": p.String(), "data": d, "gen": tag}
+	// The verdict is decided by the Lean specification `Canvas.C08.verdict` (V line): the harness only
+	// reports what it observed — the box of its independent dense sampling, the two rectangles the real
+	// code returned — and the tolerances derived from the input (scale, arc-centre conditioning).
 	tolC := 1e-9*pi.scale + pi.unc
 	tolT := 1e-6*pi.scale + pi.unc
 	if pi.unc > 1e-9*pi.scale {
 		c.Count("arc-illconditioned-centre (tolerance widened)")
 	}
-	blo, bhi := [2]float64{bb.X0, bb.Y0}, [2]float64{bb.X1, bb.Y1}
-	flo, fhi := [2]float64{fb.X0, fb.Y0}, [2]float64{fb.X1, fb.Y1}
-	names := [2]string{"x", "y"}
+	rect := func(r canvas.Rect) string { return hc.Hs(r.X0, r.Y0, r.X1, r.Y1) }
+	c.Case("V "+hc.Hs(tolC, tolT, pi.exact.lo[0], pi.exact.lo[1], pi.exact.hi[0], pi.exact.hi[1])+" "+rect(bb)+" "+rect(fb)+
+		" | "+tag+" "+p.String()+" | "+hc.DataHex(d), "!", "verdict")
 
-	// (a) Bounds contains every sampled point, (b) every side is touched
-	for a := 0; a < 2; a++ {
-		if !(blo[a] <= pi.exact.lo[a]+tolC) || !(bhi[a] >= pi.exact.hi[a]-tolC) {
-			kind := "bounds-not-containing"
-			if a == 1 && arcThetaTopClass(pi, true, blo[a], bhi[a], tolC) && othersInside(pi, a, blo[a], bhi[a], tolC) {
-				kind += ":rotated-ellipse-y" // class of the former finding C08-bounds-arc-thetatop (fixed)
-			}
-			fail(c, kind, fmt.Sprintf("Bounds %s does not contain the path: sampled %s range [%.12g, %.12g]", rectStr(bb), names[a], pi.exact.lo[a], pi.exact.hi[a]), replay)
-		} else if math.Abs(blo[a]-pi.exact.lo[a]) > tolT || math.Abs(bhi[a]-pi.exact.hi[a]) > tolT {
-			kind := "bounds-not-tight"
-			if a == 1 && arcThetaTopClass(pi, false, 0, 0, 0) {
-				kind += ":rotated-ellipse-y" // class of the former finding C08-bounds-arc-thetatop (fixed)
-			}
-			fail(c, kind, fmt.Sprintf("Bounds %s is not tight: sampled %s range [%.12g, %.12g]", rectStr(bb), names[a], pi.exact.lo[a], pi.exact.hi[a]), replay)
-		}
-	}
-	// (c) FastBounds contains Bounds (and the path itself)
-	for a := 0; a < 2; a++ {
-		loBad := !(flo[a] <= math.Min(blo[a], pi.exact.lo[a])+tolC)
-		hiBad := !(fhi[a] >= math.Max(bhi[a], pi.exact.hi[a])-tolC)
-		if loBad || hiBad {
-			kind := "fastbounds-not-containing"
-			if hiBad && !loBad && cubicMinMaxClass(pi.segs, a, 1) && hiOnlyFromCubics(pi, a, fhi[a], tolC) {
-				kind += ":cubic-upper-side" // class of the former finding C08-fastbounds-cubic-minmax (fixed)
-			}
-			fail(c, kind, fmt.Sprintf("FastBounds %s does not contain Bounds %s (%s axis)", rectStr(fb), rectStr(bb), names[a]), replay)
-		}
-	}
-	// (d) equivariance: translation and the two reflections
+	// equivariance: translation, the two axis reflections and the rotation by 90 degrees; the two
+	// rectangles go to the Lean specification `rectNear` (VE line)
 	type tr struct {
 		name    string
 		f       func(x, y float64) (float64, float64)
 		reflect bool
-		axis    int
+		dphi    float64
 	}
 	dx, dy := c.GenCoord()*pi.scale, c.GenCoord()*pi.scale
 	for _, t := range []tr{
 		{"translate", func(x, y float64) (float64, float64) { return x + dx, y + dy }, false, 0},
 		{"reflectX", func(x, y float64) (float64, float64) { return -x, y }, true, 0},
-		{"reflectY", func(x, y float64) (float64, float64) { return x, -y }, true, 1},
+		{"reflectY", func(x, y float64) (float64, float64) { return x, -y }, true, 0},
+		{"rot90", func(x, y float64) (float64, float64) { return -y, x }, false, math.Pi / 2},
 	} {
-		d2 := mapData(d, t.f, t.reflect)
+		d2 := mapData(d, t.f, t.reflect, t.dphi)
 		p2 := canvas.VerifC08PathFromData(d2)
 		var fb2, bb2 canvas.Rect
 		if msg := hc.Try(func() { fb2, bb2 = p2.FastBounds(), p2.Bounds() }); msg != "" {
@@ -899,84 +1047,14 @@ func checkPath(c *hc.Ctx, d []float64, tag string, sample bool) {
 			x1, y1 := t.f(r.X1, r.Y1)
 			return canvas.Rect{X0: math.Min(x0, x1), Y0: math.Min(y0, y1), X1: math.Max(x0, x1), Y1: math.Max(y0, y1)}
 		}
-		sc2 := pi.scale + math.Abs(dx) + math.Abs(dy)
+		sc2 := pi.scale
+		if t.name == "translate" {
+			sc2 += math.Abs(dx) + math.Abs(dy)
+		}
 		tol := 2e-9*sc2 + 2*pi.uncAt(sc2)
-		near := func(r, q canvas.Rect) bool {
-			return math.Abs(r.X0-q.X0) <= tol && math.Abs(r.Y0-q.Y0) <= tol && math.Abs(r.X1-q.X1) <= tol && math.Abs(r.Y1-q.Y1) <= tol
-		}
-		rp := map[string]any{"path": p.String(), "data": d, "gen": tag, "transform": t.name, "dx": dx, "dy": dy}
-		if !near(bb2, img(bb)) {
-			fail(c, "bounds-equivariance:"+t.name, fmt.Sprintf("Bounds of the %s image is %s, image of Bounds is %s", t.name, rectStr(bb2), rectStr(img(bb))), rp)
-		}
-		if !near(fb2, img(fb)) {
-			kind := "fastbounds-equivariance:" + t.name
-			if t.reflect && (cubicMinMaxClass(pi.segs, t.axis, 1) || cubicMinMaxClass(pi.segs, t.axis, -1)) {
-				// the asymmetric Min/Max of the CubeTo case is not reflection symmetric
-				kind += ":cubic-upper-side" // class of the former finding C08-fastbounds-cubic-minmax (fixed)
-			}
-			fail(c, kind, fmt.Sprintf("FastBounds of the %s image is %s, image of FastBounds is %s", t.name, rectStr(fb2), rectStr(img(fb))), rp)
-		}
+		info := fmt.Sprintf(" | %s %s dx=%v dy=%v %s", t.name, tag, dx, dy, p.String())
+		c.Case("VE "+hc.H(tol)+" "+rect(bb2)+" "+rect(img(bb))+info, "!", "equivariance-bounds:"+t.name)
+		c.Case("VE "+hc.H(tol)+" "+rect(fb2)+" "+rect(img(fb))+info, "!", "equivariance-fastbounds:"+t.name)
 	}
 }
 
-// hiOnlyFromCubics: the upper side that FastBounds misses is missed only because of the cp2/end
-// points of cubic segments: every point introduced by anything else (MoveTo/LineTo/Close end points,
-// quadratic control and end points, first control points of cubics, arcs) lies below FastBounds' side.
-func hiOnlyFromCubics(pi pathInfo, a int, fhi, tol float64) bool {
-	for i, s := range pi.segs {
-		switch s.Kind {
-		case 'C':
-			if coord(s.P1, a) > fhi+tol {
-				return false
-			}
-		case 'Q':
-			if coord(s.P1, a) > fhi+tol || coord(s.End, a) > fhi+tol {
-				return false
-			}
-		case 'A':
-			if coord(s.End, a) > fhi+tol || (pi.perSeg[i].hi[a] > math.Max(coord(s.P0, a), coord(s.End, a)) && pi.perSeg[i].hi[a] > fhi+tol) {
-				return false
-			}
-		default:
-			if coord(s.End, a) > fhi+tol {
-				return false
-			}
-		}
-	}
-	return true
-}
-
-// the defect class of the second known finding: Bounds' ArcTo case computes the angle of the y
-// extremes as atan2(rx*cos(phi), ry*sin(phi)) (radii swapped), which is wrong exactly for rotated
-// non-circular ellipses. exceed: additionally require that this arc's own y range leaves [lo,hi].
-func arcThetaTopClass(pi pathInfo, exceed bool, lo, hi, tol float64) bool {
-	for i, s := range pi.segs {
-		if s.Kind != 'A' {
-			continue
-		}
-		sin, cos := math.Sincos(s.Phi)
-		if math.Abs(s.Rx-s.Ry) <= 1e-9*math.Max(s.Rx, s.Ry) || math.Abs(sin*cos) <= 1e-9 {
-			continue
-		}
-		if !exceed || pi.perSeg[i].lo[1] < lo-tol || pi.perSeg[i].hi[1] > hi+tol {
-			return true
-		}
-	}
-	return false
-}
-
-// othersInside: every segment that is not an arc of the thetaTop defect class stays inside [lo,hi].
-func othersInside(pi pathInfo, a int, lo, hi, tol float64) bool {
-	for i, s := range pi.segs {
-		if s.Kind == 'A' {
-			sin, cos := math.Sincos(s.Phi)
-			if !(math.Abs(s.Rx-s.Ry) <= 1e-9*math.Max(s.Rx, s.Ry) || math.Abs(sin*cos) <= 1e-9) {
-				continue
-			}
-		}
-		if pi.perSeg[i].lo[a] < lo-tol || pi.perSeg[i].hi[a] > hi+tol {
-			return false
-		}
-	}
-	return true
-}
